@@ -252,7 +252,7 @@ class DiskImageContentInjector(DiskImageWorker):
                 fileExtension = cleanSrc[dotPos + 1 :].upper()
                 fileExtensionWithOption = src[dotPos + 1 :].upper()
             else:
-                fileExtension = fileExtensionWithOption = None
+                fileExtension = fileExtensionWithOption = ""
             if len(fileName) > 8:
                 listener.onBeforeBeginOfFile(f"-- too long name : {cleanSrc}")
                 continue
